@@ -12,7 +12,7 @@ RULE = ("parameter sets = switch vector x magnitudes: every on/off combination o
         "|t|<=1000 um, wavelength 0.1-1.5 A; 24 peaks per set anywhere on a 4096^2 detector incl. the pixel "
         "nearest the beam centre, omega in [-720,720], one set in 16 with integer-typed sc/fc/omega arrays; oracle = geometry written in the harness from the "
         "documentation, compared with transform.py (Python), Ctransform / raw C kernels, columnfile fast and "
-        "slow routes (fresh objects and update / edit-parameters / update histories on one object), numba point_by_point copy, get_local_gv, PixelLUT; non-trivial = >=3 switches on, or omegasign=-1, "
+        "slow routes (fresh objects and update / edit-parameters / update histories on one object), numba point_by_point copy, get_local_gv, PixelLUT, refinegrains.assignlabels/compute_gv on one object across in-place parameter edits (one case in four); 1, 2, 3, 5 or 24 peaks; non-trivial = >=3 switches on, or omegasign=-1, "
         "or an off-diagonal flip, or (chi!=0 and t!=0); distinct = switch index x magnitude seed")
 ASSUMPTIONS = ["tolerances: lab coordinates 1e-12*distance; g and k 1e-11/wavelength absolute (the C route forms "
                "cos(2theta)-1 and loses relative accuracy near the direct beam); tth 1e-9 deg; eta compared as "
@@ -25,6 +25,7 @@ FLIPS = [(1, 0, 0, 1), (1, 0, 0, -1), (-1, 0, 0, 1), (-1, 0, 0, -1),
          (0, 1, 1, 0), (0, 1, -1, 0), (0, -1, 1, 0), (0, -1, -1, 0)]
 SW = ["tilt_x", "tilt_y", "tilt_z", "wedge", "chi", "t_x", "t_y", "t_z"]
 NPK = 24
+NPKS = [24, 24, 3, 24, 1, 24, 2, 24, 3, 24, 5]
 
 
 def shard_layout(tier):
@@ -71,7 +72,9 @@ def params_from(index, mseed):
         sc = np.rint(sc).astype(np.int64)
         fc = np.rint(fc).astype(np.int64)
         om = np.rint(om).astype(np.int64)
-    return p, sc, fc, om
+    # number of peaks: usually 24, sometimes 1, 2, 3 (a 3 x 3 block is its own transpose's shape) or 5
+    npk = NPKS[(index // 3 + mseed) % len(NPKS)]
+    return p, sc[:npk], fc[:npk], om[:npk]
 
 
 def nontrivial(index):
@@ -124,6 +127,68 @@ class Cmp(object):
         e = np.abs(np.asarray(ds) - self.ref["ds"]).max()
         if not e <= self.gt:
             self.add("ds", route, "ds", e, self.gt)
+
+
+def refinegrains_route(p, sc, fc, om, t, index, mseed, rec):
+    """refinegrains.assignlabels (compiled kernel with the grain's translation) and refinegrains.compute_gv (Python
+    route, omega as observed) must give the reference g-vectors, also after the parameters of the same object were
+    edited in place (what a fit, the GUI and applyargs do)."""
+    import io, contextlib
+    from ImageD11 import refinegrains, columnfile, grain
+    fails = []
+    rng = np.random.RandomState((mseed * 31 + index) % (2 ** 32))
+    with contextlib.redirect_stdout(io.StringIO()):
+        o = refinegrains.refinegrains(tolerance=1.0, OmFloat=False)       # tolerance 1: every peak is taken by the grain
+        o.parameterobj.set_parameters(dict(p))
+        n = len(sc)
+        cf = columnfile.colfile_from_dict({"sc": np.asarray(sc, float), "fc": np.asarray(fc, float),
+                                           "omega": np.asarray(om, float), "xc": np.asarray(sc, float),
+                                           "yc": np.asarray(fc, float), "labels": np.zeros(n), "drlv2": np.ones(n)})
+        o.scannames.append("s")
+        o.scantitles["s"] = cf.titles
+        o.scandata["s"] = cf
+        o.grainnames.append(0)
+        o.ubisread[0] = np.eye(3) * 3.0
+        o.translationsread[0] = np.array(t, float)
+        ok, e = guard(o.generate_grains)
+        if not ok:
+            return [exc_failure("refinegrains.generate_grains", e)]
+        steps = [dict(p)]
+        p2 = dict(p)
+        for name in ("wedge", "chi", "wavelength", "omegasign", "distance", "tilt_x"):
+            if rng.random_sample() < 0.6:
+                p2[name] = {"wedge": p["wedge"] + 2.5, "chi": p["chi"] - 1.5, "wavelength": p["wavelength"] * 1.01,
+                            "omegasign": -p["omegasign"], "distance": p["distance"] * 1.02,
+                            "tilt_x": p["tilt_x"] + 0.01}[name]
+        steps.append(p2)
+        steps.append(dict(p))
+        for k, pp in enumerate(steps):
+            if k:
+                for name in pp:
+                    if pp[name] != steps[k - 1][name]:
+                        o.parameterobj.set(name, pp[name])               # in-place edit, object kept
+            refk = O.geo_forward(sc, fc, om, pp, t)
+            ck = Cmp(pp, refk)
+            ok, e = guard(o.assignlabels, quiet=True)
+            if not ok:
+                return fails + [exc_failure("refinegrains.assignlabels (step %d)" % k, e)]
+            d = o.scandata["s"]
+            ck.g("refinegrains.assignlabels step %d of an edit-parameters history -> gx,gy,gz columns" % k,
+                 np.array([d.gx, d.gy, d.gz]).T)
+            gr = o.grains[(0, "s")]
+            if len(gr.ind) == n:
+                ok, e = guard(o.compute_gv, gr)
+                if ok:
+                    ck.g("refinegrains.compute_gv step %d of an edit-parameters history" % k, o.gv)
+                    ck.angles("refinegrains.compute_gv step %d" % k, o.tth, o.eta)
+                else:
+                    fails.append(exc_failure("refinegrains.compute_gv", e))
+            elif rec is not None:
+                rec.exclude("refinegrains.compute_gv not compared: a peak was not assigned at tolerance 1")
+            fails += ck.fails
+            if ck.fails:
+                break
+    return fails
 
 
 def check(case, rec=None):
@@ -200,14 +265,14 @@ def check(case, rec=None):
             c.fails.append(exc_failure("Ctransform.sf2gv", g))
     # ---- (ii) raw kernels with garbage-prefilled outputs
     xyz_in = np.ascontiguousarray(ref["xyz"].T)
-    out = np.full((NPK, 3), 7.7)
+    out = np.full((len(sc), 3), 7.7)
     ok, e = guard(cImageD11.compute_gv, xyz_in, om, p["omegasign"], p["wavelength"], p["wedge"], p["chi"],
                   np.array(t), out)
     if ok:
         c.g("cImageD11.compute_gv", out)
     else:
         c.fails.append(exc_failure("cImageD11.compute_gv", e))
-    out6 = np.full((NPK, 6), -3.3)
+    out6 = np.full((len(sc), 6), -3.3)
     ok, e = guard(cImageD11.compute_geometry, xyz_in, om, p["omegasign"], p["wavelength"], p["wedge"], p["chi"],
                   np.array(t), out6)
     if ok:
@@ -217,7 +282,7 @@ def check(case, rec=None):
     else:
         c.fails.append(exc_failure("cImageD11.compute_geometry", e))
     rmat = (O.geo_detector_rotation(p) @ np.array([[1, 0, 0], [0, p["o22"], p["o21"]], [0, p["o12"], p["o11"]]])).ravel()
-    outx = np.full((NPK, 3), 1e9)
+    outx = np.full((len(sc), 3), 1e9)
     ok, e = guard(cImageD11.compute_xlylzl, sc, fc, np.array([p["z_center"], p["y_center"], p["z_size"], p["y_size"]]),
                   rmat, np.array([p["distance"], 0., 0.]), outx)
     if ok:
@@ -303,9 +368,9 @@ def check(case, rec=None):
             rec.exclude("numba copy not called with integer arrays (numba refuses them with a TypingError)")
         sc, fc, om = sc.astype(float), fc.astype(float), om.astype(float)
     p1 = dict(p, omegasign=1.0)
-    xpos = np.full(NPK, 0.0) if index % 2 else np.linspace(-300, 300, NPK)
+    xpos = np.full(len(sc), 0.0) if index % 2 else np.linspace(-300, 300, len(sc))
     refn = None
-    if np.ptp(xpos) == 0:
+    if not xpos.any():
         refn = O.geo_forward(sc, fc, om, p1, t)
     args = (p["distance"], p["y_center"], p["y_size"], p["tilt_y"], p["z_center"], p["z_size"], p["tilt_z"],
             p["tilt_x"], p["o11"], p["o12"], p["o21"], p["o22"], p["t_x"], p["t_y"], p["t_z"], p["wedge"], p["chi"],
@@ -315,7 +380,7 @@ def check(case, rec=None):
         if refn is None:
             # per-peak distance: reference evaluated peak by peak
             cols = []
-            for i in range(NPK):
+            for i in range(len(sc)):
                 pi = dict(p1, distance=p["distance"] - xpos[i])
                 cols.append(O.geo_forward(sc[i:i + 1], fc[i:i + 1], om[i:i + 1], pi, t)["g"][:, 0])
             c.g("point_by_point.compute_gve", np.asarray(g).T, np.array(cols).T)
@@ -372,6 +437,9 @@ def check(case, rec=None):
         c.g("point_by_point.get_local_gv", r[0], gl)
     else:
         c.fails.append(exc_failure("point_by_point.get_local_gv", r))
+    # ---- (viii) refinegrains: g-vectors for a grain's own origin, on one object across in-place parameter edits
+    if index % 4 == mseed % 4:
+        c.fails += refinegrains_route(p, sc, fc, om, t, index, mseed, rec)
     # ---- (vii) PixelLUT: per-pixel table of a small image (no translation, omega not used)
     if index % 8 == mseed % 8:
         shp = (5 + index % 4, 6 + index % 3)
